@@ -1,4 +1,5 @@
 import TakVerif.Proofs.TakGameInst
+import TakVerif.Proofs.TakGameBisimTak
 
 /-! # C05 for the Tak instance — no hypothesis left about "the game"
 
@@ -93,13 +94,18 @@ positions"): `Position.Hash` ignores the ply counter, so a position and the same
 collide by design.  The generic theorems were therefore weakened to `Search.HashOK` (equal hashes ⇒ the same
 three-valued negamax class at every depth); on a domain: `Search.HashOKOn`.
 
-* `TakHashOK basis ev sym D`: `HashOKOn` on the good positions satisfying `D` — a *semantic* hypothesis.
-* `TakNoCollision basis D`: equal hashes ⇒ `Pos.equal` (same board, same side to move) on those positions — the
-  hypothesis the property names.  **Not proved here**: `TakNoCollision → TakHashOK`, i.e. that positions with the same
-  board and mover (differing in the ply counter) have the same legal moves up to `Pos.equal`, the same game end and
-  evaluations of the same class; that is the bisimulation `C06.EqualIsBisim` for the search's instance plus a
-  class-invariance lemma per evaluator.  So the statements with `TakNoCollision` stay `_statement`s and the theorems
-  with `TakHashOK` are `_partial`. -/
+* `TakHashOK basis ev sym D`: `HashOKOn` on the good positions satisfying `D` — a *semantic* hypothesis;
+  `verdict_sound_tak_partial`, `verdict_complete_tak_partial` are stated with it, for every evaluator that is not decisive
+  on unfinished positions and every move-closed `D`.
+* the hypothesis the property names — among the positions of the game played from a good `root`
+  (`Search.InGame basis root`), equal hashes ⇒ `Pos.equal` (same board, same side to move) — suffices for evaluators
+  whose verdict class depends on the game end and the side to move only (`Search.EvVerdictCongr`; `EvaluateWinner`:
+  `evVerdictCongr_winner`): `verdict_sound_tak`, `verdict_complete_tak`.  This rests on
+  `C06.takGame_equalIsBisimFrom` (`Position.Equal` is a bisimulation on the positions of one game: positions that differ
+  in the ply counter only have `Equal` successors and the same game end) and `Search.negamax_cls_congr`.
+  **Not covered**: `MakeEvaluator(size, nil)` and the material evaluator in these two theorems — their terminal scores
+  depend on the ply counter, so beyond ply 2·10^6 two `Equal` positions need not have evaluations of the same class
+  (C18 `terminal_beyond_bound`), and a move-closed domain cannot bound the ply; for them the `_partial` forms apply. -/
 
 /-- the good positions that satisfy `D` (a set closed under applied moves: `DomClosed`) -/
 def TakDom (basis : Array W) (D : Pos → Prop) (q : Pos) : Prop := InvB basis q ∧ D q
@@ -107,10 +113,6 @@ def TakDom (basis : Array W) (D : Pos → Prop) (q : Pos) : Prop := InvB basis q
 /-- equal hashes ⇒ alike for the search's verdicts, among the good positions satisfying `D` -/
 def TakHashOK (basis : Array W) (ev : Pos → Int) (sym : Pos → List H) (D : Pos → Prop) : Prop :=
   HashOKOn (takGame basis ev sym) (TakDom basis D)
-
-/-- equal hashes ⇒ same board and side to move, among the good positions satisfying `D` -/
-def TakNoCollision (basis : Array W) (D : Pos → Prop) : Prop :=
-  ∀ p q, TakDom basis D p → TakDom basis D q → p.hashOf = q.hashOf → p.equal q = true
 
 theorem takS_none_iff (basis : Array W) (D : Pos → Prop) (k : Nat) (q : Pos) :
     takS basis D none k q ↔ TakDom basis D q :=
@@ -120,7 +122,7 @@ theorem takHashOK_dom {basis : Array W} {ev : Pos → Int} {sym : Pos → List H
     (h : TakHashOK basis ev sym D) : HashOKOn (takGame basis ev sym) (takS basis D none 0) :=
   fun p q hp hq => h p q ((takS_none_iff basis D 0 p).mp hp) ((takS_none_iff basis D 0 q).mp hq)
 
-/-- **`verdict_sound` on Tak** (partial: `TakHashOK` instead of `TakNoCollision`): any history of `Analyze` calls on
+/-- **`verdict_sound` on Tak** (partial: the semantic `TakHashOK` instead of a hypothesis about hashes alone): any history of `Analyze` calls on
 one engine starting new — any good positions of `D`, any table size or none, every call with its own move order and
 cancellation pattern — in a precise configuration: every reported value above `WinThreshold` is a forced win of the
 analysed position (some negamax value over the real legal moves is above the threshold), every value below
@@ -137,16 +139,6 @@ theorem verdict_sound_tak_partial (basis : Array W) (ev : Pos → Int) (sym : Po
     (tak_evInside basis ev sym D none hDt hev) (tak_live basis ev sym D none hDt)
     (fun _ _ _ hp => takS_none_rank basis D hp) (takHashOK_dom hcol) hpr h
     (fun x hx => ⟨(hh x hx).1, (takS_none_iff basis D 0 x.1).mpr (hh x hx).2⟩)
-
-/-- the full statement: the same under the hypothesis on hashes alone -/
-def verdict_sound_tak_statement : Prop :=
-  ∀ (basis : Array W) (ev : Pos → Int) (sym : Pos → List H), EvInside basis ev →
-    ∀ (D : Pos → Prop), DomClosed basis D → (∀ q, D q → TakD q) → TakNoCollision basis D →
-    ∀ (cfg : Search.Cfg), Precise cfg.opts → ∀ (h : History Pos Move),
-      (∀ x ∈ h, OrderOK x.2 ∧ TakDom basis D x.1) →
-      Sat (runCalls (takGame basis ev sym) cfg h (Eng.new (takGame basis ev sym) cfg)) (fun x =>
-        ∀ y ∈ x.1, (y.2 > Facts.winThreshold → Win (takGame basis ev sym) y.1) ∧
-                   (y.2 < -Facts.winThreshold → Loss (takGame basis ev sym) y.1))
 
 /-- **`verdict_complete` on Tak** (partial, as above): after any such history (cancel flags monotone), an uncancelled
 `Analyze` of an unfinished good position of `D` reports every forced win / loss that exists within the depth it
@@ -168,16 +160,43 @@ theorem verdict_complete_tak_partial (basis : Array W) (ev : Pos → Int) (sym :
     (fun x hx => ⟨(hh x hx).1, (takS_none_iff basis D 0 x.1).mpr (hh x hx).2⟩) hmono p
     ((takS_none_iff basis D 0 p).mpr hp) hov hnc hord' rs s r s' h1 h2
 
-def verdict_complete_tak_statement : Prop :=
-  ∀ (basis : Array W) (ev : Pos → Int) (sym : Pos → List H), EvInside basis ev →
-    ∀ (D : Pos → Prop), DomClosed basis D → (∀ q, D q → TakD q) → TakNoCollision basis D →
-    ∀ (cfg : Search.Cfg), Precise cfg.opts → ∀ (h : History Pos Move),
-      (∀ x ∈ h, OrderOK x.2 ∧ TakDom basis D x.1) → (∀ x ∈ h, x.2.Monotone) →
-      ∀ (p : Pos), TakDom basis D p → p.gameOver.1 = false → ∀ (o : Oracle Move), NoCancel o → OrderOK o →
-      ∀ rs s r s', runCalls (takGame basis ev sym) cfg h (Eng.new (takGame basis ev sym) cfg) = .ok (rs, s) →
-        analyze (takGame basis ev sym) cfg o p s = .ok (r, s') →
-        (negamax (takGame basis ev sym) r.2.2.depth.toNat p > Facts.winThreshold → r.2.1 > Facts.winThreshold) ∧
-        (negamax (takGame basis ev sym) r.2.2.depth.toNat p < -Facts.winThreshold → r.2.1 < -Facts.winThreshold)
+/-- **`verdict_sound` on Tak**, hypotheses about hashes and positions only: `root` a good position (e.g. a start
+position), every analysed position a position of the game from `root`, and no collision among those positions in the
+property's sense (equal hashes ⇒ same board and side to move).  Then, for every evaluator whose verdict depends on game end
+and mover only and that is not decisive on unfinished positions (`EvaluateWinner`), any history of `Analyze` calls on one
+engine starting new, any table size, each call with its own move order and cancellation pattern, in a precise
+configuration: every reported value beyond `±WinThreshold` is a real forced win / loss. -/
+theorem verdict_sound_tak (basis : Array W) (ev : Pos → Int) (sym : Pos → List H) (hev : EvInside basis ev)
+    (hevc : EvVerdictCongr ev) (root : Pos) (hroot : GoodPos basis root)
+    (hcol : ∀ p q, InGame basis root p → InGame basis root q → p.hashOf = q.hashOf → p.equal q = true)
+    {cfg : Search.Cfg} (hpr : Precise cfg.opts) (h : History Pos Move)
+    (hh : ∀ x ∈ h, OrderOK x.2 ∧ InGame basis root x.1) :
+    Sat (runCalls (takGame basis ev sym) cfg h (Eng.new (takGame basis ev sym) cfg)) (fun x =>
+      EngGood IMt x.2 ∧
+      ∀ y ∈ x.1, (y.2 > Facts.winThreshold → Win (takGame basis ev sym) y.1) ∧
+                 (y.2 < -Facts.winThreshold → Loss (takGame basis ev sym) y.1)) :=
+  verdict_sound_tak_partial basis ev sym hev (fun q => TakD q ∧ InGame basis root q) (domClosed_inGame basis root)
+    (fun _ h => h.1) (hashOKOn_of_noCollision basis ev sym hevc root hroot hcol) hpr h
+    (fun x hx => ⟨(hh x hx).1, (goodPos_inGame basis hroot (hh x hx).2).1,
+      (goodPos_inGame basis hroot (hh x hx).2).2, (hh x hx).2⟩)
+
+/-- **`verdict_complete` on Tak**, hypotheses as in `verdict_sound_tak` -/
+theorem verdict_complete_tak (basis : Array W) (ev : Pos → Int) (sym : Pos → List H) (hev : EvInside basis ev)
+    (hevc : EvVerdictCongr ev) (root : Pos) (hroot : GoodPos basis root)
+    (hcol : ∀ p q, InGame basis root p → InGame basis root q → p.hashOf = q.hashOf → p.equal q = true)
+    {cfg : Search.Cfg} (hpr : Precise cfg.opts) (h : History Pos Move)
+    (hh : ∀ x ∈ h, OrderOK x.2 ∧ InGame basis root x.1) (hmono : ∀ x ∈ h, x.2.Monotone)
+    (p : Pos) (hp : InGame basis root p) (hov : p.gameOver.1 = false) {o : Oracle Move} (hnc : NoCancel o)
+    (hord' : OrderOK o) (rs : List (Pos × Int)) (s : Eng Move) (r : List Move × Int × Stats) (s' : Eng Move)
+    (h1 : runCalls (takGame basis ev sym) cfg h (Eng.new (takGame basis ev sym) cfg) = .ok (rs, s))
+    (h2 : analyze (takGame basis ev sym) cfg o p s = .ok (r, s')) :
+    (negamax (takGame basis ev sym) r.2.2.depth.toNat p > Facts.winThreshold → r.2.1 > Facts.winThreshold) ∧
+    (negamax (takGame basis ev sym) r.2.2.depth.toNat p < -Facts.winThreshold → r.2.1 < -Facts.winThreshold) :=
+  verdict_complete_tak_partial basis ev sym hev (fun q => TakD q ∧ InGame basis root q) (domClosed_inGame basis root)
+    (fun _ h => h.1) (hashOKOn_of_noCollision basis ev sym hevc root hroot hcol) hpr h
+    (fun x hx => ⟨(hh x hx).1, (goodPos_inGame basis hroot (hh x hx).2).1,
+      (goodPos_inGame basis hroot (hh x hx).2).2, (hh x hx).2⟩) hmono p
+    ⟨(goodPos_inGame basis hroot hp).1, (goodPos_inGame basis hroot hp).2, hp⟩ hov hnc hord' rs s r s' h1 h2
 
 /-! ### a concrete 3×3 instance (everything evaluated by the kernel) -/
 
